@@ -321,10 +321,19 @@ def check_partition_stack(ctx, fn):
         item = Obj('TableInfo', integration='int2', table=Obj('Identifier', parts=['u'], alias=Obj('Identifier', parts=['b'], alias=None)), aliases=[('b',)], conditions=[],
                    sub_select=Obj('Select', from_table=Obj('Identifier', parts=['x'], alias=None), alias=None, parentheses=True), predictor_info=None, join_condition=None,
                    join_type='join', index=2)
-        self_ = new_pjt(planner=planner, query_context={'binary_ops': [], 'where_conjuncts': 0, 'use_limit': False, 'row_dict': {}}, tables_fetch_step={},
-                        step_stack=[inner], partition=partition, tables_idx={}, tables=[item])
+        self_ = new_pjt(planner=planner, query_context={}, tables_fetch_step={}, step_stack=[inner], partition=partition, tables_idx={}, tables=[item])
         q = select_ctor(None, targets=[Obj('Star')], from_table=Obj('Join'))
         it = interp_for(stubs)
+        # the bookkeeping entries the method reads are the ones check_query_conditions itself creates (for a query without WHERE)
+        cqc = fn.get('check_query_conditions')
+        if cqc is not None:
+            st0 = base_stubs()
+            st0['self.check_node_condition'] = lambda it_, n_: None
+            try:
+                interp_for(st0).call_function(cqc, [self_, q], {}, Env())
+            except Raised as r:
+                raise AnalysisError(f'check_query_conditions raises {r.exc_name}')
+        self_.attrs['query_context']['use_limit'] = False
         try:
             it.call_function(pt, [self_, item, q][:len(pt.args.args)], {}, Env())
         except Raised as r:
